@@ -40,7 +40,10 @@ static inline std::string hx(const uint8_t* p, size_t n) {
     return o;
 }
 static inline std::string hx(const Bytes& b) { return hx(b.data(), b.size()); }
-static inline std::string hxs(const std::string& s) { return hx(reinterpret_cast<const uint8_t*>(s.data()), s.size()); }
+// every std::string a library call returns must still be a well-formed string: terminated right after its last character
+static inline std::string hxs(const std::string& s) {
+    if (s.c_str()[s.size()] != '\0') return "STRING-NOT-TERMINATED";
+    return hx(reinterpret_cast<const uint8_t*>(s.data()), s.size()); }
 static inline std::string str_of(const Bytes& b) { return std::string(b.begin(), b.end()); }
 static inline std::vector<char> chars_of(const Bytes& b) { return std::vector<char>(b.begin(), b.end()); }
 static inline std::vector<std::string> split(const std::string& s, char c) {
